@@ -405,7 +405,7 @@ pub fn run(tier: Tier, replay: Option<Value>) -> i32 {
     if !memcheck {
         run.count("memcheck_unavailable", 1);
     }
-    let n = tier.pick(4u64, 40);
+    let n = tier.pick(4u64, 120);
     for case in 0..n {
         if let Some(r) = &replay {
             if r.get("case").and_then(|c| c.as_u64()) != Some(case) {
